@@ -260,6 +260,20 @@ def collect_histories(ctx, vh):
                 steps.append({"op": "Split", "dst": 3, "src": [2], "args": {"z": 0, "k": part}})
             steps.append({"op": "Export", "dst": 0, "src": [2], "args": {"z": 0, "fmt": "obj"}})
             matpat.append({"nslots": 3, "tag": "matpattern", "steps": steps})
+    # ... and distinct material OBJECTS that go by one name (SetMaterial stores the address of a copy), met in one
+    # list through Append, then exported through every format and split
+    for fmt in ("obj", "glb", "ply-le", "stl"):
+        a, b = base_mesh(2, 1, "triangle", extra=True), base_mesh(1, 2, "triangle", extra=True)
+        matpat.append({"nslots": 5, "tag": "samename", "steps": [
+            {"op": "New", "dst": 1, "src": [], "args": {"z": 0, "mesh": a}},
+            {"op": "New", "dst": 2, "src": [], "args": {"z": 0, "mesh": b}},
+            {"op": "SetMaterial", "dst": 3, "src": [1], "args": {"z": 0, "m": 2}},
+            {"op": "SetMaterial", "dst": 4, "src": [2], "args": {"z": 0, "m": 2}},
+            {"op": "Append", "dst": 5, "src": [3, 4], "args": {"z": 0}},
+            {"op": "Export", "dst": 0, "src": [5], "args": {"z": 0, "fmt": fmt}},
+            {"op": "Append", "dst": 1, "src": [5, 2], "args": {"z": 0}},
+            {"op": "Export", "dst": 0, "src": [1], "args": {"z": 0, "fmt": fmt}},
+            {"op": "Split", "dst": 2, "src": [1], "args": {"z": 0, "k": 2}}]})
     notes["material_pattern_histories"] = len(matpat)
     hists += matpat
 
